@@ -2465,7 +2465,21 @@ fn family_messages(ctx: &mut Ctx, env: &MsgEnv) {
             }
             let c = cfg.chunk as usize;
             let src_bounds: Vec<usize> = (0..8).map(|k| c - 6 + k * c).chain([8192, 16384, 24576]).filter(|b| *b <= n).collect();
-            for sc in [Sched::All, Sched::Fixed(300)].into_iter().filter(|_| sub[0]) {
+            let mut fault_scheds = vec![Sched::All, Sched::Fixed(300)];
+            if cfg.text && n > 1 {
+                // text literals carry state across source reads (pending CR, incomplete UTF-8 sequence): split
+                // the source exactly inside every CR LF pair / inside every multi-octet character, so that an
+                // injected fault falls between the two halves
+                let crlf: Vec<usize> = (1..data.len()).filter(|i| data[*i - 1] == b'\r' && data[*i] == b'\n').collect();
+                let utf8: Vec<usize> = (1..data.len()).filter(|i| data[*i] & 0xC0 == 0x80).collect();
+                if !crlf.is_empty() {
+                    fault_scheds.push(Sched::SplitAt(crlf));
+                }
+                if !utf8.is_empty() {
+                    fault_scheds.push(Sched::SplitAt(utf8));
+                }
+            }
+            for sc in fault_scheds.into_iter().filter(|_| sub[0]) {
                 let Some((_, slog, _)) = guarded(ctx, "C09/builder-source/sched", || base.clone(), || run_build(env, cfg, &data, &sc, None, Emit::Vec, &Sched::All, None)) else { continue };
                 let (offsets, ncalls) = {
                     let l = slog.lock().unwrap();
